@@ -3,6 +3,9 @@ import GoCrypt.Props.C10
 import GoCrypt.Props.C14
 import GoCrypt.Props.Accept
 import GoCrypt.Props.FlowModel
+import GoCrypt.Props.CodecIRU3
+import GoCrypt.Props.CodecIRU3Link
+import GoCrypt.Props.CodecIRU3Closed
 
 /-!
 # C06 — verification classifies every string as match, mismatch or malformed correctly
@@ -106,4 +109,12 @@ theorem params_iff_unmarshal (S : Def) (ti : TypeInfo) (h : Bytes) (hti : tiOf S
 #print axioms GoCrypt.FlowModel.flowParams_eq_model_desext
 #print axioms GoCrypt.FlowModel.flowParams_eq_model_bcrypt
 #print axioms GoCrypt.FlowModel.flowParams_eq_model_argon2
+-- Unmarshal IS the current code (Props/CodecIRU3*.lean): the whole regenerated Unmarshal — prologue, HashPrefix, the field loop with grouped params, the end checks — on a zero destination returns nil with the cells holding
+-- finalVals ti out when Codec.unmarshal ti hash = .ok out, or an error of the model's class; with getTypeInfo from the regenerated type-info program and closed instances for the shipped scheme structs (every hash under 300 bytes)
+#print axioms GoCrypt.CodecIRU.unmarshal_eq_model
+#print axioms GoCrypt.CodecIRU.unmarshal_eq_model_typeInfoOf
+#print axioms GoCrypt.CodecIRU.unmarshal_sha256_closed
+#print axioms GoCrypt.CodecIRU.unmarshal_bcrypt_closed
+#print axioms GoCrypt.CodecIRU.unmarshal_sunmd5_closed
+#print axioms GoCrypt.CodecIRU.unmarshal_argon2_closed
 end GoCrypt.C06
